@@ -225,6 +225,8 @@ var Catalogue = []Fn{
 	mk("maps", Maps), mk("echo", Echo), mk("join", Join), mk("sum", Sum), mk("any", Any), mk("withCtx", WithCtx), mk("special", Special), mk("multi", Multi),
 	mk("repeat", Repeat), mk("tree", Tree), mk("nothing", Nothing), mk("onlyErr", OnlyErr), mk("名字", Hello), mk("ns_hello", Hello),
 	mk("ctxAny", CtxAny), mk("ctxVar", CtxVar), mk("ctxMap", CtxMap),
+	// names whose cased letters are not ASCII: lookup is case-insensitive for them too
+	mk("привет", Hello), mk("Ärger_ölçüm", Add),
 }
 
 // Local invokes the function locally with the given wire arguments. It returns the results (without
